@@ -529,6 +529,118 @@ def handed_down_values_typed(h: Harness, rng):
                     break
 
 
+def ranking_fresh_individuals(h: Harness, rng):
+    """`Individual.key_function(problem)` is public: ranking individuals that nothing has mapped or evaluated yet (sorted / max over a
+    freshly created population) maps and evaluates them -- the fitness function is handed programs of the grammar"""
+    from linear import DSGE, GE, SGE, Stack, safe
+    from props import steps_common as sc
+    from geneticengine.grammar.grammar import extract_grammar
+    from geneticengine.problems import MultiObjectiveProblem, SingleObjectiveProblem
+    from geneticengine.random.sources import NativeRandomSource
+    from geneticengine.representations.tree.treebased import TreeBasedRepresentation
+    from geneticengine.solutions.individual import Individual
+    g = extract_grammar([sc.Leaf, sc.Node], sc.Root)
+    for name in ("tree", "GE", "SGE", "DynamicSGE", "Stack"):
+        r = NativeRandomSource(rng.randrange(10**6))
+        rep = {"tree": lambda: TreeBasedRepresentation(g, synth.make_decider("grow", 4, r, g)), "GE": lambda: GE(g, synth.make_decider("grow", 4, r, g), gene_length=32),
+               "SGE": lambda: SGE(g, synth.make_decider("grow", 4, r, g), gene_length=16), "DynamicSGE": lambda: DSGE(g, 4),
+               "Stack": lambda: Stack(g, gene_length=128)}[name]()
+        for multi in (False, True):
+            bad = []
+
+            def ff(p, bad=bad, multi=multi):
+                if not isinstance(p, sc.Root) and len(bad) < 3:
+                    bad.append(repr(p)[:80])
+                v = float(len(repr(p)))
+                return [v, 1.0] if multi else v
+            problem = MultiObjectiveProblem([False, True], ff) if multi else SingleObjectiveProblem(ff, minimize=False)
+            pop = [Individual(rep.create_genotype(r), rep) for _ in range(6)]
+            st, out = safe(lambda: (sorted(pop, key=Individual.key_function(problem)), max(pop, key=Individual.key_function(problem))))
+            h.count(f"ranking-fresh-individuals:{name}")
+            h.seen(f"ranking-fresh:{name}:{multi}", nontrivial=True)
+            if bad:
+                h.fail("Individual.key_function", "ill-typed-program",
+                       f"ranking six freshly created {name} individuals with Individual.key_function: the fitness function was handed {bad[0]}, "
+                       "which is not a program of the grammar", [name, multi])
+            elif st == "err" and str(out).startswith("foreign"):
+                h.fail("Individual.key_function", "foreign-error", f"ranking six freshly created {name} individuals raised {out}", [name, multi])
+
+
+def very_deep_programs(h: Harness, rng):
+    """programs several hundred levels deep (a depth limit of 700 and a decider that fills it), in a FRESH interpreter that only
+    imports the library: created, then mutated and crossed over -- the variation operators work at every depth creation works at,
+    and return programs of the grammar"""
+    import os
+    import subprocess
+    import sys
+    code = r"""
+import sys
+from abc import ABC
+from dataclasses import dataclass
+from geneticengine.grammar.grammar import extract_grammar
+from geneticengine.random.sources import NativeRandomSource
+from geneticengine.representations.tree.initializations import FullDecider
+from geneticengine.representations.tree.treebased import TreeBasedRepresentation
+class E(ABC):
+    pass
+@dataclass
+class Lit(E):
+    k: int
+@dataclass
+class Neg(E):
+    e: E
+@dataclass
+class Tag(E):
+    e: E
+    b: bool
+def depth(p):
+    d = 0
+    while not isinstance(p, Lit):
+        p, d = p.e, d + 1
+    return d + 1
+g = extract_grammar([Lit, Neg, Tag], E)
+limit, seed = int(sys.argv[1]), int(sys.argv[2])
+r = NativeRandomSource(seed)
+rep = TreeBasedRepresentation(g, FullDecider(r, g, limit))
+try:
+    p = rep.create_genotype(r)
+except BaseException as e:
+    print("CREATE-ERROR", type(e).__name__); sys.exit(0)
+print("CREATED", depth(p))
+cur = p
+for k in range(4):
+    try:
+        q = rep.mutate(r, cur) if k < 3 else rep.crossover(r, cur, p)[0]
+    except BaseException as e:
+        print("VARIATION-ERROR", k, type(e).__name__); sys.exit(0)
+    if not isinstance(q, E):
+        print("ILL-TYPED", k, type(q).__name__); sys.exit(0)
+    cur = q
+print("OK")
+"""
+    for limit in ((700,) if not h.thorough else (300, 700, 1500)):
+        seed = rng.randrange(10**6)
+        env = dict(os.environ, PYTHONPATH=os.environ.get("VERIF_REPO", "/repo"))
+        try:
+            out = subprocess.run([sys.executable, "-c", code, str(limit), str(seed)], capture_output=True, text=True, env=env, timeout=300).stdout.strip().splitlines()
+        except subprocess.TimeoutExpired:
+            h.notes.append(f"very deep programs: the fresh interpreter for limit {limit} timed out")
+            continue
+        h.count("very-deep-programs")
+        last = out[-1] if out else "NO-OUTPUT"
+        h.seen(f"very-deep:{limit}", nontrivial=last == "OK")
+        created = next((ln for ln in out if ln.startswith("CREATED")), None)
+        if last.startswith("VARIATION-ERROR") and created:
+            _, k, err = last.split()
+            h.fail("TreeBasedRepresentation.mutate" if int(k) < 3 else "TreeBasedRepresentation.crossover", "foreign-error",
+                   f"in a fresh interpreter: a program {created.split()[1]} levels deep was created under the depth limit {limit} (full), its "
+                   f"{'mutation' if int(k) < 3 else 'crossover'} (step {k}) raised {err}", [limit, seed])
+        elif last.startswith("ILL-TYPED"):
+            h.fail("TreeBasedRepresentation.mutate", "ill-typed-program", f"variation of a deep program returned a {last.split()[2]}", [limit, seed])
+        elif last.startswith("CREATE-ERROR") and last.split()[1] not in ("GeneticEngineError",):
+            h.fail("TreeBasedRepresentation.create_genotype", "foreign-error", f"in a fresh interpreter: creation under the depth limit {limit} (full) raised {last.split()[1]}", [limit, seed])
+
+
 def dsge_wrapped_union_keys(h: Harness, rng):
     """dynamic SGE keeps one gene list per symbol it expanded, Union types included; on grammars whose unions have wrapped / refined
     alternatives (the key then mentions a refinement object) every mapped genotype can still be mutated and crossed over, and the
@@ -685,6 +797,8 @@ def run(h: Harness):
     cooperative_gp(h, rng)
     warm_started_searches(h, rng)
     handed_down_values_typed(h, rng)
+    ranking_fresh_individuals(h, rng)
+    very_deep_programs(h, rng)
     dsge_wrapped_union_keys(h, rng)
     stack_wrapped_fields(h, rng)
     postponed_annotations(h, rng)
